@@ -19,6 +19,7 @@ import (
 
 type concDriver struct {
 	name    string
+	base    int // 0: baseHistory, 1: baseHistory2 (a middle snapshot without garbage)
 	cfg     nCfg
 	pre     func(e *nEnv, x *concCtx) // after the base history, before the threads start
 	threads []func(e *nEnv, x *concCtx)
@@ -88,6 +89,20 @@ func baseHistory(e *nEnv) {
 	vrt.WaitIdle()
 }
 
+// baseHistory2: a1,b1,c1 | S1 | insert d (no deletes: S2 carries no garbage) | S2 | delete a, delete b | S3
+func baseHistory2(e *nEnv) {
+	e.mPut(0, "a", "1", 1)
+	e.mPut(0, "b", "1", 0)
+	e.mPut(0, "c", "1", 1)
+	e.mSnap()
+	e.mPut(0, "d", "1", 0)
+	e.mSnap()
+	e.mDel(0, "a")
+	e.mDel(0, "b")
+	e.mSnap()
+	vrt.WaitIdle()
+}
+
 // checkScan: a reader thread scans snapshot i and compares with its reference content.
 func (e *nEnv) checkScan(i int, rate int) string {
 	s := e.snaps[i]
@@ -146,6 +161,14 @@ func concDrivers(prop string, tier string) []concDriver {
 					func(e *nEnv, x *concCtx) { e.closeSnap(2); e.closeSnap(1) },
 					func(e *nEnv, x *concCtx) { e.mDel(1, "c") },
 				}},
+				concDriver{name: "base2/readS1-vs-closeS2S3", base: 1, cfg: cfg, threads: []func(e *nEnv, x *concCtx){
+					func(e *nEnv, x *concCtx) { x.res[0] = e.checkScan(0, 0) },
+					func(e *nEnv, x *concCtx) { e.closeSnap(1); e.closeSnap(2) },
+				}},
+				concDriver{name: "base2/readS1-readS2-vs-closeS3-writer", base: 1, cfg: cfg, threads: []func(e *nEnv, x *concCtx){
+					func(e *nEnv, x *concCtx) { x.res[0] = e.checkScan(0, 1); x.res[1] = e.checkScan(1, 0) },
+					func(e *nEnv, x *concCtx) { e.closeSnap(2); e.mDel(1, "c") },
+				}},
 				concDriver{name: "readS2-readS3-vs-closeS1", cfg: cfg, threads: []func(e *nEnv, x *concCtx){
 					func(e *nEnv, x *concCtx) { x.res[0] = e.checkScan(1, 1) },
 					func(e *nEnv, x *concCtx) { x.res[1] = e.checkScan(2, 0) },
@@ -160,6 +183,10 @@ func concDrivers(prop string, tier string) []concDriver {
 				}},
 				concDriver{name: "closeS1-closeS2-closeS3", cfg: cfg, threads: []func(e *nEnv, x *concCtx){
 					func(e *nEnv, x *concCtx) { e.closeSnap(0) },
+					func(e *nEnv, x *concCtx) { e.closeSnap(1) },
+					func(e *nEnv, x *concCtx) { e.closeSnap(2) },
+				}},
+				concDriver{name: "base2/closeS2-vs-closeS3", base: 1, cfg: cfg, threads: []func(e *nEnv, x *concCtx){
 					func(e *nEnv, x *concCtx) { e.closeSnap(1) },
 					func(e *nEnv, x *concCtx) { e.closeSnap(2) },
 				}},
@@ -277,7 +304,11 @@ func runConcDriver(jc *JobCtx, prop string, d concDriver, model vrt.CostModel, b
 			x.fs = resetFS()
 		}
 		vrt.NoBranch(true)
-		baseHistory(e)
+		if d.base == 1 {
+			baseHistory2(e)
+		} else {
+			baseHistory(e)
+		}
 		if d.pre != nil {
 			d.pre(e, x)
 		}
